@@ -47,15 +47,16 @@ Section Histories.
     proj s = proj s' -> m_evict s = m_evict s' ->
     proj (handle auth s p) = proj (handle auth s' p) /\ m_evict (handle auth s p) = m_evict (handle auth s' p).
   Proof.
-    intros [l ev hs a r d] [l' ev' hs' a' r' d'] p Hp He. unfold proj in Hp. cbn in Hp, He.
-    injection Hp as <- <-. subst ev'. unfold handle, proj. cbn [m_entries m_evict m_hs m_acc m_rej m_drop].
+    intros [l pr nx ev hs a r d] [l' pr' nx' ev' hs' a' r' d'] p Hp He. unfold proj in Hp. cbn in Hp, He.
+    injection Hp as <- <- <-. subst ev'. unfold handle, proj.
+    cbn [m_entries m_peers m_next m_evict m_hs m_acc m_rej m_drop].
     destruct (lookup (c_id p) l) as [e|]; [|split; reflexivity].
     destruct (negb (auth e p)); [split; reflexivity|].
     destruct (c_kind p) as [|[|[]|]]; split; reflexivity.
   Qed.
 
   Lemma forged_proj_congr : forall s s' p, proj s = proj s' -> forged s p = forged s' p.
-  Proof. intros s s' p H. unfold forged. unfold proj in H. injection H as -> _. reflexivity. Qed.
+  Proof. intros s s' p H. unfold forged. unfold proj in H. injection H as -> _ _. reflexivity. Qed.
 
   Lemma handle_evict : forall s p, m_evict (handle auth s p) = m_evict s.
   Proof.
@@ -73,7 +74,7 @@ Section Histories.
       + rewrite <- Hp. apply forged_no_effect. intros e L.
         unfold forged in F.
         assert (L' : lookup (c_id p) (m_entries s') = Some e)
-          by (unfold proj in Hp; injection Hp as <- _; exact L).
+          by (unfold proj in Hp; injection Hp as <- _ _; exact L).
         rewrite L' in F. now apply negb_true_iff in F.
       + now rewrite handle_evict.
     - destruct (handle_proj_congr s s' p Hp He) as [H1 H2]. apply IH; assumption.
@@ -108,12 +109,71 @@ Theorem authentic_effects : forall auth s p e,
   let s' := handle auth s p in
   m_acc s' = m_acc s + 1 /\
   (c_kind p = 0 -> m_hs s' = m_hs s + 1 /\
-      m_entries s' = if m_evict s && e_aged e then remove (c_id p) (m_entries s) else m_entries s) /\
-  (c_kind p = 1 -> m_hs s' = m_hs s /\
-      m_entries s' = update (c_id p) (mk_entry (N.max (e_cur e) (c_val p)) (e_aged e)) (m_entries s)) /\
-  (2 <= c_kind p -> m_hs s' = m_hs s + 1 /\ m_entries s' = m_entries s).
+      m_entries s' = (if m_evict s && e_aged e then remove (c_id p) (m_entries s) else m_entries s) /\
+      m_peers s' = (if m_evict s && e_aged e then remove_exact (e_peer e) (c_id p) (m_peers s) else m_peers s)) /\
+  (c_kind p = 1 -> m_hs s' = m_hs s /\ m_peers s' = m_peers s /\
+      m_entries s' = update (c_id p) (mk_entry (N.max (e_cur e) (c_val p)) (e_aged e) (e_peer e)) (m_entries s)) /\
+  (2 <= c_kind p -> m_hs s' = m_hs s + 1 /\ m_entries s' = m_entries s /\ m_peers s' = m_peers s).
 Proof.
   intros auth s p e L A. unfold handle. rewrite L, A. cbn [negb].
-  destruct (c_kind p) as [|[q|q|]] eqn:K; cbn [m_acc m_hs m_entries];
+  destruct (c_kind p) as [|[q|q|]] eqn:K; cbn [m_acc m_hs m_entries m_peers];
     repeat split; try reflexivity; try discriminate; try lia; intros; try discriminate; try lia.
 Qed.
+
+(* ------------------------------------------------------------------ eviction is exact *)
+Lemma lookup_remove_other : forall x id l, id <> x -> lookup id (remove x l) = lookup id l.
+Proof.
+  intros x id l H. induction l as [|[k e] t IH]; cbn [remove lookup]; [reflexivity|].
+  destruct (N.eqb_spec k x) as [->|Hk].
+  - rewrite IH. destruct (N.eqb_spec x id) as [->|]; [contradiction|reflexivity].
+  - cbn [lookup]. now rewrite IH.
+Qed.
+
+Lemma plookup_remove_exact_other : forall a x l b i,
+  plookup b l = Some i -> i <> x -> plookup b (remove_exact a x l) = Some i.
+Proof.
+  intros a x l b i. induction l as [|[k j] t IH]; cbn [remove_exact plookup]; [discriminate|].
+  intros H Hi. destruct (N.eqb_spec k b) as [->|Hk].
+  - injection H as ->. destruct (N.eqb_spec b a) as [->|Hba]; cbn [andb].
+    + destruct (N.eqb_spec i x) as [->|]; [contradiction|]. cbn [plookup]. now rewrite N.eqb_refl.
+    + cbn [plookup]. now rewrite N.eqb_refl.
+  - destruct ((k =? a) && (j =? x)); [now apply IH|]. cbn [plookup].
+    destruct (N.eqb_spec k b); [contradiction|]. now apply IH.
+Qed.
+
+(* whatever packet is handled -- authentic or not -- for credential id X: every other credential
+   id keeps its entry untouched, and every address whose current secret is not X keeps its
+   binding.  In particular an UnknownPathSecret packet naming a peer's OLD secret cannot remove
+   the NEWER secret negotiated with the same address. *)
+Theorem handle_touches_only_named : forall auth s p,
+  (forall id, id <> c_id p -> lookup id (m_entries (handle auth s p)) = lookup id (m_entries s)) /\
+  (forall a i, plookup a (m_peers s) = Some i -> i <> c_id p ->
+               plookup a (m_peers (handle auth s p)) = Some i).
+Proof.
+  intros auth s p. unfold handle.
+  destruct (lookup (c_id p) (m_entries s)) as [e|]; [|split; intros; [reflexivity|assumption]].
+  destruct (negb (auth e p)); [split; intros; [reflexivity|assumption]|].
+  destruct (c_kind p) as [|[q|q|]]; cbn [m_entries m_peers]; split; intros;
+    try reflexivity; try assumption.
+  - destruct (m_evict s && e_aged e); [now apply lookup_remove_other|reflexivity].
+  - destruct (m_evict s && e_aged e); [now apply plookup_remove_exact_other|assumption].
+  - clear - H. induction (m_entries s) as [|[k e'] t IH]; cbn [update lookup]; [reflexivity|].
+    destruct (N.eqb_spec k (c_id p)) as [->|Hk]; cbn [lookup].
+    + destruct (N.eqb_spec (c_id p) id); [congruence|reflexivity].
+    + now rewrite IH.
+Qed.
+
+(* after a re-handshake the address points to the new secret, and a packet naming the old one
+   leaves that binding alone *)
+Theorem rehandshake_then_old_ups : forall auth s a aged p,
+  c_id p <> m_next s ->
+  plookup a (m_peers (handle auth (rehandshake s a aged) p)) = Some (m_next s).
+Proof.
+  intros auth s a aged p H.
+  apply (proj2 (handle_touches_only_named auth (rehandshake s a aged) p)); [|now apply not_eq_sym].
+  unfold rehandshake. cbn [m_peers]. induction (m_peers s) as [|[k i] t IH]; cbn [pinsert plookup].
+  - now rewrite N.eqb_refl.
+  - destruct (N.eqb_spec k a) as [->|Hk]; cbn [plookup]; [now rewrite N.eqb_refl|].
+    destruct (N.eqb_spec k a); [contradiction|exact IH].
+Qed.
+
